@@ -2122,8 +2122,23 @@ func (s *compressedBodyStream) Close() error {
 }
 
 func (s *compressedBodyStream) write(sw *bufio.Writer) {
-	s.closeErr = s.closeOriginal(s.compress(sw, s.bodyStream, s.level))
+	s.closeErr = s.closeOriginal(s.compressRecover(sw))
 	close(s.done)
+}
+
+// compressRecover runs s.compress and turns a panic raised by the original
+// body stream into an error, like Response.writeBodyStream does. The
+// compression runs in its own goroutine, where a panic would otherwise
+// terminate the whole process.
+func (s *compressedBodyStream) compressRecover(sw *bufio.Writer) (err error) {
+	defer func() {
+		if r := recover(); r != nil {
+			err = &ErrBodyStreamWritePanic{
+				error: fmt.Errorf("panic while compressing body stream: %+v", r),
+			}
+		}
+	}()
+	return s.compress(sw, s.bodyStream, s.level)
 }
 
 func (s *compressedBodyStream) closeOriginal(wErr error) error {
